@@ -27,6 +27,13 @@ CLAIMED = {
                      "snapshot/clear/call, self-removing teardown) gives every observer exactly the events issued while it was registered and holds exactly the registered observers; "
                      "C10_replay_history_complete / C10_behavior_latest: the history cells always hold what was pushed. Partial: the hand-over of Behavior/Replay/AsyncSubject to a late "
                      "joiner is proved at the level of the history cells and otherwise decided by the reference-machine oracle applied to the implementation on all short histories."),
+    "C08": dict(engine="coq-conc", design="DESIGN.md 6 C08",
+                technique="machine-checked proof in Coq (invariants of the queue transition system over all traces) + linearisation check of every observed call/return history against the extracted transition system under a deterministic scheduling runtime",
+                text="Theorems C08_queue_accounting / C08_no_start_after_abort / C08_worker_takes_front / C08_worker_exits_after_abort / C08_notifications_not_lost: for every trace of the queue "
+                     "transition system (one transition per critical section; any clients, posts and aborts also from inside tasks, spurious wake-ups) posted = started ++ discarded ++ queued in order "
+                     "(FIFO, at most once, nothing lost), one task at a time, a sleeping worker implies empty queue and no abort (no lost wake-up), nothing starts after abort and the worker exits within "
+                     "one task return and one check. Tie: histories of the real scheduler under thousands of controlled schedules (random, PCT, DFS, spurious wake-ups) must be linearisations accepted "
+                     "by the extracted transition system; thread affinity and worker liveness at quiescence are read off the runtime."),
     "C19": dict(engine="coq-conc", design="DESIGN.md 6 C19",
                 technique="machine-checked proof in Coq (invariant of a transition system at critical-section granularity, for any number of threads, any call lists, any interleaving) + correspondence under a deterministic scheduling runtime (exhaustive DFS / random / PCT schedules; implementation log set within the model's explored log set)",
                 text="Theorems C19_at_most_one_terminal / C19_nothing_started_after_terminal_returned / C19_slots_empty_after_terminal: in the gate model of Observer "
